@@ -338,7 +338,7 @@ func decodePathOrPolygon(data []byte, oid int) string {
 	}
 	closed := data[0] != 0
 	npts := int(i32(data, 1))
-	if len(data) < 5+npts*16 {
+	if npts < 0 || len(data) < 5+npts*16 {
 		return ""
 	}
 
@@ -360,6 +360,10 @@ func decodeBitString(data []byte) string {
 	}
 	bitlen := int(i32(data, 0))
 	if bitlen == 0 {
+		return ""
+	}
+	// a stored bit string carries (bitlen+7)/8 data bytes; refuse lengths the data cannot hold
+	if bitlen < 0 || (bitlen+7)/8 > len(data)-4 {
 		return ""
 	}
 
